@@ -40,6 +40,9 @@ type CtxPlan struct {
 	// NoDeadlines (scenarios in which the hello arrives): the transport's
 	// Set*Deadline calls fail with ErrUnsupported and have no effect.
 	NoDeadlines bool `json:"no_deadlines,omitempty"`
+	// HalfDeadlines: only the read half of the transport supports deadlines;
+	// SetDeadline arms it and returns an error for the write half.
+	HalfDeadlines bool `json:"half_deadlines,omitempty"`
 	// Parked: that many other connections of the process sit in NewConn with
 	// silent clients while the repetitions run (more than there are processors).
 	Parked int `json:"parked,omitempty"`
@@ -205,6 +208,9 @@ func executeCtx(t *testing.T, prop string, seed uint64, p *CtxPlan) *core.Result
 			if p.NoDeadlines {
 				fc.DeadlineErr = errors.ErrUnsupported
 				res.Probe("transport_without_deadlines")
+			} else if p.HalfDeadlines {
+				fc.DeadlineWriteErr = fmt.Errorf("write half: %w", os.ErrNoDeadline)
+				res.Probe("transport_with_read_deadlines_only")
 			}
 			cc.Write(rec)
 			if p.Buffered || p.After == "timeout-after" {
@@ -504,6 +510,7 @@ func genC10(seed uint64, idx int) *Plan {
 		c.Parked = 20
 	}
 	c.NoDeadlines = (idx/64)%2 == 1 && (idx/4)%8 < 6
+	c.HalfDeadlines = !c.NoDeadlines && (idx%7 == 3 && (idx/4)%8 < 5 || idx%2 == 1 && (idx/4)%8 == 5)
 	// the action grid
 	switch (idx / 4) % 8 {
 	case 0:
